@@ -750,3 +750,53 @@ def c11(tier):
     res.extra["exhaustive_part"] = "the relations as theorems over all frameworks <= %d arguments (MCDung)" % (4 if thorough else 3)
     res.assumptions = ["on 20-300 arguments only relations between runs and polynomial necessary conditions are judged (DESIGN.md section 8)"]
     return res.finish()
+
+
+# ----------------------------------------------------------------------------------------------------------------
+# C05 command-line tools
+# ----------------------------------------------------------------------------------------------------------------
+import cli as clilib
+
+
+@check("C05")
+def c05(tier):
+    res = Result("C05", tier)
+    thorough = tier == "thorough"
+    bindir = vlib.build_repo_bins()
+    bins = {"crustabri": os.path.join(bindir, "crustabri"), "iccma23": os.path.join(bindir, "crustabri_iccma23")}
+    r = vlib.mc("MCCli.tla", cfg="MCCli.cfg", wd=res.wd, name="MCCli", timeout=600, workers=4)
+    res.add_mc(r)
+    space = vlib.printed(r["out"], "REPLAY")
+    invs = [x["inv"] for x in space]
+    sets = af_sets(res, tier)
+    rng = random.Random(seed())
+    pool = [a for a in sets["ref3"] if a["n"] == 3] + [a for a in sets["iso4"]] + [a for a in sets["shaped"] if 2 <= a["n"] <= 9] + [a for a in sets["rand"] if a["n"] <= 7]
+    rng.shuffle(pool)
+    answers = [i for i in invs if i["file"] == "good" and i["pclass"] == "valid" and i["enc"] != "invalid" and i["argc"] == ("absent" if i["kind"] == "SE" else "valid")]
+    others = [i for i in invs if i not in answers]
+    if thorough:
+        todo = invs + answers * 6
+        nafs = 700
+    else:
+        todo = rng.sample(others, 3000) + answers * 16
+        nafs = 450
+    afs = pool[:nafs]
+    per_af = len(todo) // len(afs) + 1
+    t = time.time()
+    segs, used = clilib.run_all(todo, afs, res.wd, bins, seed(), per_af)
+    segs.append([{"ev": "af", "idx": -1, "n": 0, "args": [], "ids": [], "att": [], "present": "file", "tag": "", "sems": []}] + clilib.problems_events(bins))
+    log("  RUN cli: %d invocations (of %d abstract ones) on %d frameworks %.1fs" % (used, len(invs), len(afs), time.time() - t))
+    t1, st = vlib.judge("TraceStatic.tla", segs, res.wd, "cli", shards=8)
+    res.add_judge("cli", t1, st, only_props={"C05"})
+    res.nontrivial = len(set((json.dumps(e["inv"], sort_keys=True), e["sem"], e["exit"], e["status"], json.dumps(e["wargs"])) for s in segs for e in s if e["ev"] == "cli"))
+    ce = [e for s in segs for e in s if e["ev"] == "cli"]
+    res.samples = [next(e for e in ce if e["exit"] == 0 and e["wline"]), next(e for e in ce if e["exit"] != 0), ce[len(ce) // 2]]
+    res.rule = ("abstract invocations = the space enumerated by MCCli (binary x file kind x format x problem class x query kind x argument class x encoding x "
+                "certificate x logging: %d legal combinations) with the outcome of Cli.tla; each is concretised (random semantics, casing, argument) on a "
+                "framework written in both formats and run through the real binaries; answers are parsed and judged by the C01-C04 predicates; "
+                "non-trivial = distinct (invocation, semantics, exit status, printed answer)" % len(invs))
+    res.exhaustive = False
+    res.extra["abstract_invocations"] = len(invs)
+    res.extra["invocations_run"] = used
+    res.assumptions = ["log lines are exactly the stdout lines starting with '![' (app_helper.rs)", "stderr is not part of the answer channel"]
+    return res.finish()
